@@ -792,8 +792,6 @@ theorem refs_own_exchange {defs : List Def} {ii : Indexed} (h : build defs = som
     · cases hr
     · rename_i hv
       have hv' : ex.value = x.value.exchange.value := by simpa using hv
-      -- `d` maps back with a lookup that inverts `resolveAsset`; use the reference lemma on `hr`
-      have : ∀ c ∈ d.assetRefs, True := fun _ _ => trivial
       -- every asset key of `x.value` is an argument on which `resolveAsset` is defined
       have htot : ∀ a ∈ (x.value.mapExchangeKey ex.value).assetRefs,
           ∃ c, resolveAsset ii.assets ex.value a = some c := by
